@@ -53,13 +53,40 @@ Proof. reflexivity. Qed.
 Lemma rd_of_wf b : rd_wf (rd_of b).
 Proof. split; cbn; [lia | reflexivity]. Qed.
 
+(* r' is r after consuming some whole bytes: the byte counter moved forward by exactly the bytes dropped *)
+Definition rd_adv (r r' : rd) : Prop :=
+  r_cnt r <= r_cnt r' /\ r_bytes r' = skipn (N.to_nat (r_cnt r' - r_cnt r)) (r_bytes r).
+
+Lemma rd_adv_refl r : rd_adv r r.
+Proof. split; [lia|]. rewrite N.sub_diag. reflexivity. Qed.
+
+Lemma skipn_skipn' {A} : forall (b a : nat) (l : list A), skipn a (skipn b l) = skipn (b + a) l.
+Proof.
+  induction b as [|b IH]; intros a l; [reflexivity|].
+  destruct l as [|x t]; [rewrite !skipn_nil; reflexivity|]. cbn [skipn Nat.add]. apply IH.
+Qed.
+
+Lemma rd_adv_trans r1 r2 r3 : rd_adv r1 r2 -> rd_adv r2 r3 -> rd_adv r1 r3.
+Proof.
+  intros [H1 E1] [H2 E2]. split; [lia|]. rewrite E2, E1, skipn_skipn'. f_equal. lia.
+Qed.
+
+Lemma rd_adv_intro r r' : r_cnt r <= r_cnt r' -> r_bytes r' = skipn (N.to_nat (r_cnt r' - r_cnt r)) (r_bytes r) -> rd_adv r r'.
+Proof. intros A B. split; assumption. Qed.
+Lemma rd_adv_elim r r' : rd_adv r r' -> r_cnt r <= r_cnt r' /\ r_bytes r' = skipn (N.to_nat (r_cnt r' - r_cnt r)) (r_bytes r).
+Proof. intros H. exact H. Qed.
+Global Opaque rd_adv.
+
+(* closes the first three parts of a reader specification, leaving the position and the advance *)
+Ltac fin5 H := split; [reflexivity|]; split; [assumption|]; split; [exact H|]; split.
+
 Lemma off_cases o : o < 8 -> o = 0 \/ o = 1 \/ o = 2 \/ o = 3 \/ o = 4 \/ o = 5 \/ o = 6 \/ o = 7.
-Proof. lia. Qed.
+Proof. intros H. lia. Qed.
 
 Lemma read_bit_spec r b t :
   rd_wf r -> rd_bits r = b :: t ->
   exists r', read_bit r = Some (b, r') /\ rd_bits r' = t /\ rd_wf r' /\ rd_pos r' = rd_pos r + 1
-             /\ (exists k, r_bytes r' = skipn k (r_bytes r)).
+             /\ rd_adv r r'.
 Proof.
   intros [Hoff Hnil] Hb. destruct r as [bytes off cnt]. cbn [r_bytes r_off r_cnt] in *.
   unfold rd_bits in Hb. cbn [r_bytes r_off] in Hb.
@@ -74,36 +101,30 @@ Proof.
       (split; [unfold bytes_bits; cbn [flat_map bits_msb app skipn N.to_nat Pos.to_nat Pos.iter_op Nat.add N.of_nat Pos.of_succ_nat Pos.succ]; reflexivity|]);
       (split; [split; [lia | intros; try discriminate; reflexivity]|]);
       (split; [lia|]);
-      first [exists 0%nat; reflexivity | exists 1%nat; reflexivity].
-Qed.
-
-Lemma skipn_skipn' {A} : forall (b a : nat) (l : list A), skipn a (skipn b l) = skipn (b + a) l.
-Proof.
-  induction b as [|b IH]; intros a l; [reflexivity|].
-  destruct l as [|x t]; [rewrite !skipn_nil; reflexivity|]. cbn [skipn Nat.add]. apply IH.
+      (apply rd_adv_intro; cbn [r_cnt r_bytes]; [lia|]; first [rewrite N.sub_diag; reflexivity | replace (cnt + 1 - cnt) with 1 by lia; reflexivity]).
 Qed.
 
 Lemma read_bits_spec : forall n l rest acc r,
   rd_wf r -> rd_bits r = l ++ rest -> length l = n ->
   exists r', read_bits n acc r = Some (valf acc l, r') /\ rd_bits r' = rest /\ rd_wf r'
-             /\ rd_pos r' = rd_pos r + N.of_nat n /\ (exists k, r_bytes r' = skipn k (r_bytes r)).
+             /\ rd_pos r' = rd_pos r + N.of_nat n /\ rd_adv r r'.
 Proof.
   induction n as [|n IH]; intros l rest acc r Hwf Hb Hl.
   - destruct l; [|discriminate]. exists r. cbn [read_bits valf fold_left app] in *.
-    repeat split; try assumption; try apply Hwf; [lia | exists 0%nat; reflexivity].
+    fin5 Hwf; [lia | apply rd_adv_refl].
   - destruct l as [|b l']; [discriminate|]. cbn [app] in Hb.
-    destruct (read_bit_spec r b (l' ++ rest) Hwf Hb) as (r1 & E1 & Hb1 & Hwf1 & Hp1 & (k1 & Hk1)).
-    destruct (IH l' rest (bstep acc b) r1 Hwf1 Hb1 ltac:(cbn in Hl; lia)) as (r2 & E2 & Hb2 & Hwf2 & Hp2 & (k2 & Hk2)).
+    destruct (read_bit_spec r b (l' ++ rest) Hwf Hb) as (r1 & E1 & Hb1 & Hwf1 & Hp1 & Hk1).
+    destruct (IH l' rest (bstep acc b) r1 Hwf1 Hb1 ltac:(cbn in Hl; lia)) as (r2 & E2 & Hb2 & Hwf2 & Hp2 & Hk2).
     exists r2. cbn [read_bits]. rewrite E1. unfold bstep in E2. rewrite E2.
-    repeat split; try assumption; try apply Hwf2.
+    fin5 Hwf2.
     + rewrite Hp2, Hp1, Nat2N.inj_succ. lia.
-    + exists (k1 + k2)%nat. rewrite Hk2, Hk1, skipn_skipn'. reflexivity.
+    + exact (rd_adv_trans _ _ _ Hk1 Hk2).
 Qed.
 
 Lemma rbits_spec n l rest r :
   rd_wf r -> rd_bits r = l ++ rest -> N.of_nat (length l) = n ->
   exists r', rbits n r = Some (val l, r') /\ rd_bits r' = rest /\ rd_wf r'
-             /\ rd_pos r' = rd_pos r + n /\ (exists k, r_bytes r' = skipn k (r_bytes r)).
+             /\ rd_pos r' = rd_pos r + n /\ rd_adv r r'.
 Proof.
   intros Hwf Hb Hl. unfold rbits, val.
   destruct (read_bits_spec (N.to_nat n) l rest 0 r Hwf Hb ltac:(lia)) as (r' & E & H1 & H2 & H3 & H4).
@@ -114,7 +135,7 @@ Qed.
 Lemma rbits_field n v rest r :
   rd_wf r -> rd_bits r = bits_msb (N.to_nat n) v ++ rest ->
   exists r', rbits n r = Some (v mod 2 ^ n, r') /\ rd_bits r' = rest /\ rd_wf r'
-             /\ rd_pos r' = rd_pos r + n /\ (exists k, r_bytes r' = skipn k (r_bytes r)).
+             /\ rd_pos r' = rd_pos r + n /\ rd_adv r r'.
 Proof.
   intros Hwf Hb.
   destruct (rbits_spec n _ rest r Hwf Hb ltac:(rewrite bits_msb_length; lia)) as (r' & E & H).
